@@ -189,8 +189,9 @@ def mk_array(ctype, cells):
     return pa.array(cells, type=t)
 
 
-def mk_table(cols, chunks, stagger=False):
-    """cols: [{name,type,nullable?}], chunks: list of chunks, each a list of rows (lists of cells)."""
+def mk_table(cols, chunks, stagger=False, schema=None):
+    """cols: [{name,type,nullable?}], chunks: list of chunks, each a list of rows (lists of cells).
+    `schema`: build the table on this pyarrow.Schema object instead of a new (equal) one."""
     pa = _pa()
     arrays = []
     for j, col in enumerate(cols):
@@ -204,7 +205,8 @@ def mk_table(cols, chunks, stagger=False):
         if stagger and j % 2 == 1:
             ca = pa.chunked_array([ca.combine_chunks()] if len(ca) else [], type=arrow_type(col["type"]))
         arrays.append(ca)
-    schema = pa.schema([pa.field(c["name"], arrow_type(c["type"]), nullable=c.get("nullable", True)) for c in cols])
+    if schema is None:
+        schema = pa.schema([pa.field(c["name"], arrow_type(c["type"]), nullable=c.get("nullable", True)) for c in cols])
     return pa.Table.from_arrays(arrays, schema=schema)
 
 
@@ -645,22 +647,30 @@ def _iter_oracle(case, tables, out):
                     seen.add(clause)
                     fails.append((clause, {"row": i, "col": j, "table": ti, "expected": a, "got": b}))
     if tables:
-        if out["names"] != list(tables[0].column_names):
-            fails.append(("column names differ from the Arrow field names", {"got": out["names"]}))
-        want = [bool(f.nullable) for f in tables[0].schema]
-        if out["nullable"] != want:
-            fails.append(("nullability not carried over from the Arrow fields", {"got": out["nullable"], "expected": want}))
-        # a decimal128(p, s) field with 1 <= p <= 38 is the image of DECIMAL(p, s) under arrow_field
-        # (C11.arrow_decimal_exact), so it has to come back as DECIMAL(p, s) - also when it is the second
-        # or third decimal type of the table
-        for j, col in enumerate(cols):
-            if col["type"].startswith("decimal128(") and j < len(out.get("coltypes", [])):
-                pp, ss = [int(x) for x in col["type"][len("decimal128("):-1].split(",")]
-                got = out["coltypes"][j]
-                if got[0] != "DECIMAL" or (got[2], got[3]) != (pp, ss):
-                    fails.append(("DECIMAL precision/scale not preserved by the Arrow type mapping",
-                                  {"col": j, "arrow": col["type"], "back": got}))
-                    break
+        fails += schema_clauses(cols, tables[0].schema, out)
+    return fails
+
+
+def schema_clauses(cols, arrow_schema, out):
+    """What the statement says about the columns built from an Arrow schema: the fields' names and nullability
+    carry over; a decimal128(p, s) field comes back as DECIMAL(p, s)."""
+    fails = []
+    if out["names"] != list(arrow_schema.names):
+        fails.append(("column names differ from the Arrow field names", {"got": out["names"], "expected": list(arrow_schema.names)}))
+    want = [bool(f.nullable) for f in arrow_schema]
+    if out["nullable"] != want:
+        fails.append(("nullability not carried over from the Arrow fields", {"got": out["nullable"], "expected": want}))
+    # a decimal128(p, s) field with 1 <= p <= 38 is the image of DECIMAL(p, s) under arrow_field
+    # (C11.arrow_decimal_exact), so it has to come back as DECIMAL(p, s) - also when it is the second
+    # or third decimal type of the table
+    for j, col in enumerate(cols):
+        if col["type"].startswith("decimal128(") and j < len(out.get("coltypes", [])):
+            pp, ss = [int(x) for x in col["type"][len("decimal128("):-1].split(",")]
+            got = out["coltypes"][j]
+            if got[0] != "DECIMAL" or (got[2], got[3]) != (pp, ss):
+                fails.append(("DECIMAL precision/scale not preserved by the Arrow type mapping",
+                              {"col": j, "arrow": col["type"], "back": got}))
+                break
     return fails
 
 
@@ -1281,6 +1291,597 @@ def reuse_model_line(case, table_sets):
                                     [[which, size, read] for _, size, read, which in map(reuse_conv, case["convs"])])
 
 
+# ---- separate conversions, the owner of an earlier result edits it in between (`share`)
+#
+# A conversion hands its caller *mutable* objects (a RelationSchema, its list of columns, FlatColumn objects); the
+# Arrow schema they were built from is immutable and compares by value.  So anything kept between two conversions
+# under the Arrow schema (a memo on the schema helper, a per-field memo of columns, a frame-level memo of the table)
+# turns "a copy" into "an alias": the owner of the first result renames a column, and the next, independent
+# conversion of another table with an equal Arrow schema carries the edited name instead of its field's.
+# Sessions: conversions of several tables (equal Arrow schemas - the very same Schema object or an equal one -, or
+# the same names under another typing) through every entry point, interleaved with edits of earlier results; every
+# conversion is judged from scratch against its own Arrow fields; results of separate conversions must share no
+# mutable object; at the end every result must show exactly the edits made through it.
+# `dir: to`: the other direction - Orso schema objects converted to Arrow (schema helper, with identities, per
+# column, through a frame), edited, converted again: each conversion is judged against the columns as they are then.
+
+SHARE_VIAS = ("from_arrow", "DataFrame", "helper", "fields")
+SHARE_EDITS = ("rename", "nullable", "type", "pop", "append")
+SHARE_COLTYPES = ("int64", "string", "bool", "float64", "binary", "decimal128(10,2)", "decimal128(10,0)", "decimal128(38,0)")
+SHARE_EDIT_TYPES = ("VARCHAR", "INTEGER", "DOUBLE", "BOOLEAN", "BLOB", "TIMESTAMP")
+SHARE_TO_VIAS = ("helper", "identities", "fields", "frame")
+SHARE_TO_EDITS = ("rename", "nullable", "type", "precision", "scale", "elem", "pop", "append")
+SHARE_TO_TYPES = ("INTEGER", "VARCHAR", "BOOLEAN", "DOUBLE", "BLOB", "TIMESTAMP")
+SHARE_TO_ELEMS = ("INTEGER", "VARCHAR", "DOUBLE", "BOOLEAN")
+
+CLAUSE_SHARE_LATER = "a conversion made after the result of an earlier conversion was edited does not carry over its own Arrow fields"
+CLAUSE_SHARED = "separate conversions returned the same mutable schema / column objects"
+CLAUSE_LEAK = "an edit made through the result of one conversion shows in the result of another conversion"
+CLAUSE_TYPING_HISTORY = "column typing differs between two conversions of an equal Arrow schema"
+CLAUSE_TO_STALE = "a conversion to Arrow does not describe the columns as they are when it is made"
+
+
+def share_table_cols(case, t):
+    return case["tables"][t].get("cols") or case["cols"]
+
+
+def build_share_tables(case):
+    """One table per entry; tables with equal column definitions are built on the very same pyarrow.Schema object
+    unless the entry says `own` (then on an equal Schema of its own)."""
+    import json
+
+    shared, out = {}, []
+    for t, spec in enumerate(case["tables"]):
+        cols = share_table_cols(case, t)
+        key = json.dumps(cols, sort_keys=True)
+        if spec.get("own") or key not in shared:
+            tb = mk_table(cols, [spec["rows"]])
+            if not spec.get("own"):
+                shared[key] = tb.schema
+        else:
+            tb = mk_table(cols, [spec["rows"]], schema=shared[key])
+        out.append(tb)
+    return out
+
+
+def _share_mirror_edit(cols, what, j, value):
+    """The edit on a result held by value ([name, nullable, type-or-None] per column) -> new list, or None (no such column)."""
+    cols = [list(c) for c in cols]
+    if what == "append":
+        return cols + [[value, True, "VARCHAR"]]
+    if not 0 <= j < len(cols):
+        return None
+    if what == "pop":
+        return cols[:j] + cols[j + 1:]
+    if what == "rename":
+        cols[j][0] = value
+    elif what == "nullable":
+        cols[j][1] = value
+    elif what == "type":
+        cols[j][2] = value
+    return cols
+
+
+def share_mirror(case):
+    """The specification, written out: a conversion's result is its own - (what each conversion returns as
+    [name, nullable, None] per column, what each result shows at the end, valid?).  The third entry of a column is a
+    type only where an edit set it."""
+    seen, vals = [], []
+    for st in case["steps"]:
+        if st[0] == "conv":
+            cols = [[c["name"], bool(c.get("nullable", True)), None] for c in share_table_cols(case, st[2])]
+            seen.append(cols)
+            vals.append([list(c) for c in cols])
+        else:
+            _, r, what, j, value = st
+            if not 0 <= r < len(vals):
+                return seen, vals, False
+            new = _share_mirror_edit(vals[r], what, j, value)
+            if new is None:
+                return seen, vals, False
+            vals[r] = new
+    return seen, vals, True
+
+
+def _share_read(res):
+    """What a result shows now: [col_enc per column] (or a description of why it cannot be read)."""
+    try:
+        return [col_enc(c) for c in res["columns"]]
+    except Exception as e:
+        return {"unreadable": "%s: %s" % (type(e).__name__, str(e)[:120])}
+
+
+def run_share_impl(case, tables):
+    import orso.converters as oc
+    from orso import DataFrame
+    from orso.schema import FlatColumn, convert_arrow_schema_to_orso_schema
+    from orso.types import OrsoTypes
+
+    results, outs, edits = [], [], []
+    schemas = [t.schema for t in tables]  # (one Python object per table, handed over again by every conversion of it)
+    for st in case["steps"]:
+        if st[0] == "conv":
+            _, via, t = st
+            table = tables[t]
+            o = {}
+            try:
+                if via == "from_arrow":
+                    it, schema = oc.from_arrow(table)
+                    o["rows"] = [canon_row(r) for r in itertools.islice(it, table.num_rows + 8)]
+                    res = {"schema": schema, "columns": schema.columns}
+                    o["names"] = list(schema.column_names)
+                elif via == "DataFrame":
+                    df = DataFrame.from_arrow(table)
+                    schema = df.schema
+                    res = {"schema": schema, "columns": schema.columns}
+                    o["names"] = list(df.column_names)
+                    o["rows"] = [canon_row(r) for r in itertools.islice(iter(df), table.num_rows + 8)]
+                    back = df.arrow()
+                    o["arrow_names"] = list(back.column_names)
+                    pys = [back.column(j).to_pylist() for j in range(back.num_columns)]
+                    o["arrow_rows"] = [[canon(p[i]) for p in pys] for i in range(back.num_rows)]
+                elif via == "helper":
+                    schema = convert_arrow_schema_to_orso_schema(schemas[t])
+                    res = {"schema": schema, "columns": schema.columns}
+                    o["names"] = list(schema.column_names)
+                else:
+                    columns = [FlatColumn.from_arrow(f) for f in schemas[t]]
+                    res = {"schema": None, "columns": columns}
+                    o["names"] = [str(c.name) for c in columns]
+                res["objs"] = list(res["columns"])
+                o["cols"] = [col_enc(c) for c in res["objs"]]
+                o["nullable"] = [c[5] for c in o["cols"]]
+                o["coltypes"] = [c[1:5] for c in o["cols"]]
+                shared = []
+                for r0, e in enumerate(results):
+                    if e is None:
+                        continue
+                    what = []
+                    if res["schema"] is not None and res["schema"] is e["schema"]:
+                        what.append("schema object")
+                    if res["columns"] is e["columns"]:
+                        what.append("list of columns")
+                    if any(a is b for a in res["objs"] for b in e["objs"]):
+                        what.append("column object")
+                    if what:
+                        shared.append([r0, what])
+                if shared:
+                    o["shared_with"] = shared
+                results.append(res)
+            except InfraError:
+                raise
+            except Exception as e:
+                o = {"raised": "%s: %s" % (type(e).__name__, str(e)[:200])}
+                results.append(None)
+            outs.append(o)
+        else:
+            _, r, what, j, value = st
+            res = results[r] if r < len(results) else None
+            try:
+                if res is None:
+                    raise LookupError("no result to edit")
+                if what == "rename":
+                    res["columns"][j].name = value
+                elif what == "nullable":
+                    res["columns"][j].nullable = value
+                elif what == "type":
+                    res["columns"][j].type = OrsoTypes[value]
+                elif what == "pop":
+                    res["columns"].pop(j)
+                elif what == "append":
+                    res["columns"].append(FlatColumn(name=value, type=OrsoTypes.VARCHAR))
+                edits.append("ok")
+            except InfraError:
+                raise
+            except Exception as e:
+                edits.append("%s: %s" % (type(e).__name__, str(e)[:120]))
+    final = [None if res is None else _share_read(res) for res in results]
+    return {"convs": outs, "edits": edits, "final": final}
+
+
+def _share_cols_match(spec, encs):
+    """Does a result (col encodings) show what the by-value specification says ([name, nullable, type-or-None])?"""
+    if not isinstance(encs, list) or len(encs) != len(spec):
+        return False
+    return all(e[0] == s_[0] and e[5] == s_[1] and (s_[2] is None or e[1] == s_[2]) for s_, e in zip(spec, encs))
+
+
+def share_oracle(case, tables, out):
+    if case.get("dir") == "to":
+        return share_to_oracle(case, out)
+    seen, vals, _ = share_mirror(case)
+    fails = []
+    convs = [st for st in case["steps"] if st[0] == "conv"]
+    first_typing = {}
+    edited = False
+    k = 0
+    for st in case["steps"]:
+        if st[0] != "conv":
+            edited = True
+            continue
+        o, (_, via, t) = out["convs"][k], st
+        cols = share_table_cols(case, t)
+        mine = []
+        if "raised" in o:
+            mine.append(("from_arrow raised", {"error": o["raised"]}))
+        else:
+            if via in ("from_arrow", "DataFrame"):
+                sub = {"kind": "iter", "cols": cols, "tables": [[case["tables"][t]["rows"]]], "size": None,
+                       "via": "DataFrame" if via == "DataFrame" else "from_arrow"}
+                mine += _iter_oracle(sub, [tables[t]], o)
+            else:
+                mine += schema_clauses(cols, tables[t].schema, o)
+            if via == "DataFrame":
+                exp = expected_rows_of([tables[t]])
+                if o["arrow_names"] != list(tables[t].column_names):
+                    mine.append(("round trip changed the column names", {"got": o["arrow_names"]}))
+                elif not _rows_same(exp, o["arrow_rows"]):
+                    mine.append(("round trip changed the rows", {"got": o["arrow_rows"][:3], "expected": exp[:3]}))
+            key = wire.line(cols)
+            if key in first_typing and first_typing[key][1] != o["coltypes"]:
+                mine.append((CLAUSE_TYPING_HISTORY, {"earlier_conversion": first_typing[key][0], "earlier": first_typing[key][1],
+                                                      "now": o["coltypes"]}))
+            first_typing.setdefault(key, (k, o["coltypes"]))
+            if o.get("shared_with"):
+                mine.append((CLAUSE_SHARED, {"shared_with": o["shared_with"]}))
+        for cl, d in mine:
+            d = dict(d, conversion=k, conv=list(st))
+            if edited and cl not in (CLAUSE_SHARED,):
+                fails.append(("%s (%s)" % (CLAUSE_SHARE_LATER, cl), d))
+            else:
+                fails.append((cl, d))
+        k += 1
+        if fails:
+            return fails
+    for r, (spec, got) in enumerate(zip(vals, out["final"])):
+        if got is not None and not _share_cols_match(spec, got):
+            fails.append((CLAUSE_LEAK, {"conversion": r, "conv": list(convs[r]), "shows": got,
+                                         "expected_names_nullability": [s_[:2] for s_ in spec]}))
+            break
+    return fails
+
+
+def _share_fields_enc(table_schema):
+    return [[f.name, arrow_ty_enc(f.type), bool(f.nullable)] for f in table_schema]
+
+
+def share_model_line(case, tables):
+    if case.get("dir") == "to":
+        # the session itself goes to the model: schema objects, conversions, edits (the To machine of Model/ArrowShare.lean)
+        return "C11 shareto " + wire.line([[[c["name"], c["type"], c.get("elem"), c.get("p"), c.get("s"), c.get("nullable", True)]
+                                            for c in cols] for cols in case["schemas"]], case["steps"])
+    steps = []
+    for st in case["steps"]:
+        if st[0] == "conv":
+            site = {"from_arrow": "from_arrow", "DataFrame": "from_arrow", "helper": "helper", "fields": "field"}[st[1]]
+            steps.append(["conv", site, _share_fields_enc(tables[st[2]].schema)])
+        else:
+            steps.append(["edit", st[1], st[2], st[3], st[4]])
+    return "C11 share " + wire.line(steps)
+
+
+# ---- … the other direction: Orso schema objects converted to Arrow, edited, converted again
+
+
+def _share_to_edit(cols, what, j, value):
+    cols = [dict(c) for c in cols]
+    if what == "append":
+        return cols + [_scol(value, "VARCHAR")]
+    if not 0 <= j < len(cols):
+        return None
+    c = cols[j]
+    if what == "pop":
+        return cols[:j] + cols[j + 1:]
+    if what == "rename":
+        c["name"] = value
+    elif what == "nullable":
+        c["nullable"] = value
+    elif what == "type":
+        # (between types without precision / scale / element type: an edited object is not normalised again)
+        if c["type"] not in SHARE_TO_TYPES or value not in SHARE_TO_TYPES:
+            return None
+        c["type"] = value
+    elif what in ("precision", "scale"):
+        if c["type"] != "DECIMAL":
+            return None
+        c["p" if what == "precision" else "s"] = value
+        if not (isinstance(c["p"], int) and isinstance(c["s"], int) and 1 <= c["p"] <= 38 and 0 <= c["s"] <= c["p"]):
+            return None
+    elif what == "elem":
+        if c["type"] != "ARRAY" or value not in SHARE_TO_ELEMS:
+            return None
+        c["elem"] = value
+    return cols
+
+
+def share_to_mirror(case):
+    """-> (the columns of the converted schema object as they are at each conversion, valid?)"""
+    state = [[dict(c) for c in cols] for cols in case["schemas"]]
+    at_conv = []
+    for st in case["steps"]:
+        if st[0] == "conv":
+            if not 0 <= st[2] < len(state):
+                return at_conv, False
+            at_conv.append([dict(c) for c in state[st[2]]])
+        else:
+            _, k, what, j, value = st
+            if not 0 <= k < len(state):
+                return at_conv, False
+            new = _share_to_edit(state[k], what, j, value)
+            if new is None or not new:
+                return at_conv, False
+            state[k] = new
+    return at_conv, True
+
+
+def _share_to_rows(cols0, n=2):
+    cell = {"INTEGER": lambda i: 2**53 + 1 + i, "VARCHAR": lambda i: "r%d" % i, "BOOLEAN": lambda i: i % 2 == 0,
+            "DOUBLE": lambda i: i + 0.5, "BLOB": lambda i: b"b%d" % i}
+    return [tuple(cell.get(c["type"], lambda i: None)(i) for c in cols0) for i in range(n)]
+
+
+def run_share_to_impl(case):
+    from orso import DataFrame
+    from orso.schema import FlatColumn, RelationSchema, convert_orso_schema_to_arrow_schema
+    from orso.types import OrsoTypes
+
+    def mk(c):
+        kw = {}
+        if c.get("p") is not None:
+            kw["precision"] = c["p"]
+        if c.get("s") is not None:
+            kw["scale"] = c["s"]
+        if c.get("elem") is not None:
+            kw["element_type"] = _orso_type(c["elem"])
+        return FlatColumn(name=c["name"], type=_orso_type(c["type"]), nullable=c.get("nullable", True), **kw)
+
+    live = [RelationSchema(name="t%d" % k, columns=[mk(c) for c in cols]) for k, cols in enumerate(case["schemas"])]
+    outs, edits = [], []
+    for st in case["steps"]:
+        if st[0] == "conv":
+            _, via, k = st
+            sch = live[k]
+            try:
+                if via == "frame":
+                    # (every frame holds the rows laid out for the columns the schema had at the start and as many
+                    # cells per row as the schema has columns now)
+                    width = len(sch.columns)
+                    rows = [tuple((list(r) + [None] * width)[:width]) for r in _share_to_rows(case["schemas"][k])]
+                    table = DataFrame(rows=rows, schema=sch).arrow()
+                    outs.append({"arrow_names": list(table.column_names), "arrow_rows": table.num_rows, "rows": len(rows)})
+                    continue
+                if via == "fields":
+                    fields = [c.arrow_field for c in sch.columns]
+                elif via == "identities":
+                    fields = list(convert_orso_schema_to_arrow_schema(sch, use_identities=True))
+                else:
+                    fields = list(convert_orso_schema_to_arrow_schema(sch))
+                fencs = [[f.name, arrow_ty_enc(f.type), bool(f.nullable)] for f in fields]
+                backs = [col_enc(FlatColumn.from_arrow(f)) for f in fields]
+                outs.append({"fields": fencs, "back": backs})
+            except InfraError:
+                raise
+            except Exception as e:
+                outs.append({"raised": "%s: %s" % (type(e).__name__, str(e)[:160])})
+        else:
+            _, k, what, j, value = st
+            try:
+                cols = live[k].columns
+                if what == "rename":
+                    cols[j].name = value
+                elif what == "nullable":
+                    cols[j].nullable = value
+                elif what == "type":
+                    cols[j].type = OrsoTypes[value]
+                elif what == "precision":
+                    cols[j].precision = value
+                elif what == "scale":
+                    cols[j].scale = value
+                elif what == "elem":
+                    cols[j].element_type = OrsoTypes[value]
+                elif what == "pop":
+                    cols.pop(j)
+                elif what == "append":
+                    cols.append(FlatColumn(name=value, type=OrsoTypes.VARCHAR))
+                edits.append("ok")
+            except InfraError:
+                raise
+            except Exception as e:
+                edits.append("%s: %s" % (type(e).__name__, str(e)[:120]))
+    return {"convs": outs, "edits": edits}
+
+
+def share_to_oracle(case, out):
+    at_conv, _ = share_to_mirror(case)
+    convs = [st for st in case["steps"] if st[0] == "conv"]
+    fails = []
+    edited = False
+    k = 0
+    for st in case["steps"]:
+        if st[0] != "conv":
+            edited = True
+            continue
+        o, cols = out["convs"][k], at_conv[k]
+        mine = []
+        if "raised" in o:
+            mine.append(("arrow_field/from_arrow raised", {"error": o["raised"]}))
+        elif st[1] == "frame":
+            if o["arrow_names"] != [c["name"] for c in cols]:
+                mine.append(("round trip changed the column names", {"got": o["arrow_names"], "expected": [c["name"] for c in cols]}))
+            elif o["arrow_rows"] != o["rows"]:
+                mine.append(("round trip changed the number of rows", {"got": o["arrow_rows"], "expected": o["rows"]}))
+        else:
+            sub = {"kind": "schema", "cols": cols, "identities": st[1] == "identities"}
+            mine += schema_oracle(sub, o["fields"], o["back"])
+        for cl, d in mine:
+            d = dict(d, conversion=k, conv=list(st))
+            fails.append(("%s (%s)" % (CLAUSE_TO_STALE, cl), d) if edited else (cl, d))
+        k += 1
+        if fails:
+            break
+    return fails
+
+
+def share_valid(c):
+    if c.get("dir") == "to":
+        if not isinstance(c.get("schemas"), list) or not 1 <= len(c["schemas"]) <= 3 or not isinstance(c.get("steps"), list):
+            return False
+        for cols in c["schemas"]:
+            names = [x["name"] for x in cols]
+            if not cols or len(set(names)) != len(names):
+                return False
+            for x in cols:
+                if set(x) - {"name", "type", "elem", "p", "s", "nullable"} or not isinstance(x["name"], str):
+                    return False
+                t = x["type"]
+                if t == "DECIMAL":
+                    if not (isinstance(x.get("p"), int) and isinstance(x.get("s"), int) and 1 <= x["p"] <= 38 and 0 <= x["s"] <= x["p"]):
+                        return False
+                elif t == "ARRAY":
+                    if x.get("elem") not in SHARE_TO_ELEMS or x.get("p") is not None or x.get("s") is not None:
+                        return False
+                elif t not in SHARE_TO_TYPES or x.get("p") is not None or x.get("s") is not None or x.get("elem") is not None:
+                    return False
+        nconv = 0
+        for st in c["steps"]:
+            if not isinstance(st, list) or not st:
+                return False
+            if st[0] == "conv":
+                if len(st) != 3 or st[1] not in SHARE_TO_VIAS or not isinstance(st[2], int) or isinstance(st[2], bool):
+                    return False
+                nconv += 1
+            elif st[0] == "edit":
+                if len(st) != 5 or st[2] not in SHARE_TO_EDITS or any(isinstance(x, bool) or not isinstance(x, int) for x in (st[1], st[3])):
+                    return False
+                if st[2] in ("rename", "append") and not isinstance(st[4], str):
+                    return False
+                if st[2] == "nullable" and not isinstance(st[4], bool):
+                    return False
+                if st[2] in ("precision", "scale") and (isinstance(st[4], bool) or not isinstance(st[4], int)):
+                    return False
+            else:
+                return False
+        if not 1 <= nconv <= 8 or len(c["steps"]) > 16:
+            return False
+        at_conv, ok = share_to_mirror(c)
+        if not ok:
+            return False
+        # the columns of a schema keep distinct names (a frame / an Arrow schema with a repeated name is another matter)
+        return all(len({x["name"] for x in cols}) == len(cols) for cols in at_conv)
+    if c.get("dir", "from") != "from" or not isinstance(c.get("tables"), list) or not c["tables"] or not isinstance(c.get("steps"), list):
+        return False
+    for t, spec in enumerate(c["tables"]):
+        if not isinstance(spec, dict) or set(spec) - {"rows", "own", "cols"} or not isinstance(spec.get("rows"), list):
+            return False
+        cols = share_table_cols(c, t)
+        if not cols or len({x["name"] for x in cols}) != len(cols) or any(x["type"] not in SHARE_COLTYPES for x in cols):
+            return False
+    nconv = 0
+    for st in c["steps"]:
+        if not isinstance(st, list) or not st:
+            return False
+        if st[0] == "conv":
+            if len(st) != 3 or st[1] not in SHARE_VIAS or isinstance(st[2], bool) or not isinstance(st[2], int) \
+                    or not 0 <= st[2] < len(c["tables"]):
+                return False
+            nconv += 1
+        elif st[0] == "edit":
+            if len(st) != 5 or st[2] not in SHARE_EDITS or any(isinstance(x, bool) or not isinstance(x, int) for x in (st[1], st[3])):
+                return False
+            if st[2] in ("rename", "append") and not isinstance(st[4], str):
+                return False
+            if st[2] == "nullable" and not isinstance(st[4], bool):
+                return False
+            if st[2] == "type" and st[4] not in SHARE_EDIT_TYPES:
+                return False
+        else:
+            return False
+    if not 1 <= nconv <= 8 or len(c["steps"]) > 16:
+        return False
+    if not share_mirror(c)[2]:
+        return False
+    for t, tb in enumerate(build_share_tables(c)):
+        for j, col in enumerate(share_table_cols(c, t)):
+            if tb.column(j).null_count and (col["type"] == "int64" or not col.get("nullable", True)):
+                return False  # (an integer column with a null is the open finding K01; a non-nullable field holds no null)
+    return True
+
+
+def share_evaluate(ctx, c, out, fails, m, tables):
+    """model vs written-out specification, model vs implementation -> (nontrivial, model view, impl view, agree)"""
+    if c.get("dir") == "to":
+        at_conv, _ = share_to_mirror(c)
+        # model vs the written-out specification: the names written are those of the columns as they are at each conversion
+        model_ok = len(m[0]) == len(at_conv) and all(
+            isinstance(mo, list) and [mf[0] for mf, _ in mo] == [x["name"] for x in cols] for mo, cols in zip(m[0], at_conv))
+        if not model_ok:
+            convs_ = [s_ for s_ in c["steps"] if s_[0] == "conv"]
+            impl_right = not fails and all(
+                "raised" not in o and (st[1] == "identities" or (o["arrow_names"] if st[1] == "frame" else [f[0] for f in o["fields"]])
+                                       == [x["name"] for x in cols]) for st, o, cols in zip(convs_, out["convs"], at_conv))
+            if impl_right:
+                _model_departs(ctx, c, "Lean conversion-to-Arrow session model disagrees with the Python mirror on %r" % (c,))
+            ctx.disagree(c, out, m, what="the model generated from the source departs from the specification (a conversion to "
+                                         "Arrow describes the columns as they are when it is made) on this input")
+        agree = len(m[0]) == len(out["convs"]) and all(isinstance(mo, list) for mo in m[0])
+        for st, cols, mo, o in zip([s_ for s_ in c["steps"] if s_[0] == "conv"], at_conv, m[0], out["convs"]):
+            if "raised" in o or not isinstance(mo, list):
+                agree = False
+            elif st[1] == "frame":
+                agree = agree and o["arrow_names"] == [mf[0] for mf, _ in mo]
+            else:
+                for (mf, mb), f, b in zip(mo, o["fields"], o["back"]):
+                    if st[1] == "identities":
+                        mf, f = mf[1:], f[1:]
+                        mb, b = (mb[1:], b[1:]) if mb[0] != "err" and b[0] != "err" else (mb, b)
+                    agree = agree and mf == f and mb == b
+                agree = agree and len(mo) == len(o["fields"])
+        ctx.hit("kind:share-to")
+        for st in c["steps"]:
+            ctx.hit("share-to-step:" + (st[0] + ":" + (st[1] if st[0] == "conv" else st[2])))
+        nconv = sum(1 for s_ in c["steps"] if s_[0] == "conv")
+        ctx.hit("share-to-conversions:%d" % min(nconv, 5))
+        if len(c["schemas"]) > 1:
+            ctx.hit("share-to-several-schema-objects")
+        return nconv >= 2, m[0], out, agree
+    seen, vals, _ = share_mirror(c)
+    mseen, mfinal = m[0], m[1]
+
+    def proj(encs):
+        return None if not isinstance(encs, list) or (encs and encs[0] == "err") else [[e[0], e[5]] for e in encs]
+
+    model_ok = len(mseen) == len(seen) and all(proj(a) == [s_[:2] for s_ in b] for a, b in zip(mseen, seen)) \
+        and len(mfinal) == len(vals) and all(_share_cols_match(b, a) for a, b in zip(mfinal, vals))
+    if not model_ok:
+        impl_right = not fails and all("raised" not in o and proj(o["cols"]) == [s_[:2] for s_ in b]
+                                       for o, b in zip(out["convs"], seen))
+        if impl_right:
+            _model_departs(ctx, c, "Lean conversion-session model disagrees with the Python mirror on %r" % (c,))
+        ctx.disagree(c, out, m, what="the model generated from the source departs from the specification (every conversion "
+                                     "returns columns of its own, built from its Arrow fields) on this input")
+    agree = len(out["convs"]) == len(mseen) and all("raised" not in o and o["cols"] == a for o, a in zip(out["convs"], mseen)) \
+        and out["final"] == mfinal
+    ctx.hit("kind:share")
+    convs = [s_ for s_ in c["steps"] if s_[0] == "conv"]
+    ctx.hit("share-conversions:%d" % min(len(convs), 5))
+    for st in c["steps"]:
+        ctx.hit("share-step:" + (st[0] + ":" + (st[1] if st[0] == "conv" else st[2])))
+    if len({s_[2] for s_ in convs}) < len(convs):
+        ctx.hit("share-same-table-converted-again")
+    if any(spec.get("own") for spec in c["tables"]):
+        ctx.hit("share-equal-schema-in-a-distinct-Schema-object")
+    if len(c["tables"]) > 1 and not all(spec.get("own") for spec in c["tables"][1:]):
+        ctx.hit("share-very-same-Schema-object")
+    if any(spec.get("cols") for spec in c["tables"]):
+        ctx.hit("share-same-names-other-typing")
+    if len({s_[1] for s_ in convs}) >= 2:
+        ctx.hit("share-conversions-through-different-entry-points")
+    first_conv = next((i for i, s_ in enumerate(c["steps"]) if s_[0] == "conv"), 0)
+    if any(s_[0] == "edit" for s_ in c["steps"][first_conv:]) and c["steps"][-1][0] == "conv":
+        ctx.hit("share-conversion-after-an-edit-of-an-earlier-result")
+    return len(convs) >= 2, {"returned": mseen, "final": mfinal}, out, agree
+
+
 # ---- column typing
 
 
@@ -1629,6 +2230,8 @@ def valid_case(c):
                         if not col.get("nullable", True) and t.column(j).null_count:
                             return False
             return True
+        if k == "share":
+            return share_valid(c)
         if k == "roundtrip":
             if not c["types"]:
                 return False
@@ -1692,6 +2295,13 @@ def _impl_and_fails(case):
         table_sets = build_reuse_tables(case)
         out = run_reuse_impl(case, table_sets)
         return out, reuse_oracle(case, table_sets, out), reuse_model_line(case, table_sets), ("reuse", out, table_sets)
+    if k == "share":
+        if case.get("dir") == "to":
+            out = run_share_to_impl(case)
+            return out, share_oracle(case, None, out), share_model_line(case, None), ("share", out, None)
+        tables = build_share_tables(case)
+        out = run_share_impl(case, tables)
+        return out, share_oracle(case, tables, out), share_model_line(case, tables), ("share", out, tables)
     if k == "roundtrip":
         out, rows = run_roundtrip_impl(case)
         fails = roundtrip_oracle(case, out, rows)
@@ -1750,6 +2360,13 @@ def flush_pending(ctx):
         ctx._c11_pending.clear()
 
 
+def _steps_first(case, steps):
+    """the case with these steps, `steps` ahead of the tables (the structural shrinker works through a case in key order)"""
+    out = {"kind": case["kind"], "dir": case.get("dir", "from"), "steps": steps}
+    out.update({k_: v_ for k_, v_ in case.items() if k_ not in out})
+    return out
+
+
 def focus_candidates(case, detail):
     """Smaller cases around the failing cell: only its column (and only its table / its row)."""
     if case["kind"] == "seq" and (detail or {}).get("step") is not None:
@@ -1771,6 +2388,40 @@ def focus_candidates(case, detail):
             yield dict(simple, convs=case["convs"][:i + 1])
             yield dict(case, convs=case["convs"][:i + 1])
         yield simple
+        return
+    if case["kind"] == "share":
+        # the steps after the failing conversion do not matter; of the conversions before it, one is enough (the one
+        # whose result is shared with / was edited before the failing one): [that conversion, the edits made through its
+        # result, the failing conversion]
+        i = (detail or {}).get("conversion")
+        if i is None:
+            return
+        cut, seen = case, -1
+        for n_, st in enumerate(case["steps"]):
+            seen += st[0] == "conv"
+            if seen == i:
+                cut = _steps_first(case, case["steps"][:n_ + 1])
+                break
+        if case.get("dir") == "to":
+            # (edits go to schema objects, not to results: keep them all, drop the conversions in between)
+            convs = [n_ for n_, st in enumerate(cut["steps"]) if st[0] == "conv"]
+            for keep in ([convs[0], convs[-1]] if len(convs) > 2 else []), :
+                if keep:
+                    yield _steps_first(cut, [st for n_, st in enumerate(cut["steps"]) if st[0] != "conv" or n_ in keep])
+            yield cut
+            return
+        first = [sw[0] for sw in (detail or {}).get("shared_with", [])]
+        for r0 in first + [r for r in range(i - 1, -1, -1) if r not in first]:
+            steps, k = [], -1
+            for st in cut["steps"]:
+                if st[0] == "conv":
+                    k += 1
+                    if k in (r0, i):
+                        steps.append(st)
+                elif st[1] == r0:
+                    steps.append(["edit", 0] + list(st[2:]))
+            yield _steps_first(cut, steps)
+        yield cut
         return
     j = (detail or {}).get("col")
     if j is None:
@@ -1988,6 +2639,9 @@ def evaluate(ctx, cases):
             if c.get("second"):
                 same_names = [x["name"] for x in c["cols"]] == [x["name"] for x in c["second"]["cols"]]
                 ctx.hit("reuse-two-arguments" + ("-same-column-names-other-typing" if same_names else ""))
+        elif k == "share":
+            _, o, tables = cmp_
+            nontrivial, model_view, impl_view, agree = share_evaluate(ctx, c, o, fails, m, tables)
         elif k == "roundtrip":
             _, o, rows = cmp_
             size = c.get("size")
@@ -2652,6 +3306,152 @@ def random_reuse_case(ctx):
     return case
 
 
+SHARE_COLS = [{"name": "id", "type": "int64", "nullable": False}, {"name": "name", "type": "string"}]
+SHARE_ALT_COLS = [{"name": "id", "type": "int64"}, {"name": "name", "type": "decimal128(10,2)", "nullable": False}]
+SHARE_TABLES = [{"rows": [[1, "a"], [2, None]]}, {"rows": [[3, None], [4, "d"], [5, "e"]]},
+                {"rows": [[6, "f"]], "own": True}, {"rows": [[7, "1.50"]], "cols": SHARE_ALT_COLS},
+                {"rows": []}, {"rows": [], "own": True}]
+SHARE_EDIT_ALPHABET = [None, ["rename", 0, "identifier"], ["nullable", 1, False], ["nullable", 0, True], ["pop", 1, None], ["pop", 0, None],
+                       ["type", 0, "VARCHAR"], ["append", 0, "extra"]]
+
+
+def exhaustive_share_cases():
+    """convert a table; edit the result (or not); convert - through every entry point - the same table, another
+    table on the very same Schema object, one on an equal Schema of its own, one with the same names under another
+    typing.  Every conversion is judged from scratch; no mutable object may be common to two results."""
+    for via1 in SHARE_VIAS:
+        for e in SHARE_EDIT_ALPHABET:
+            for via2 in SHARE_VIAS:
+                # (first a table with rows, then any table; first a table without rows - a shape of its own in
+                # from_arrow and to_arrow -, then a table without rows or one with)
+                for t1, t2 in [(0, t) for t in range(5)] + [(4, 4), (4, 5), (4, 1)]:
+                    steps = [["conv", via1, t1]] + ([["edit", 0] + e] if e else []) + [["conv", via2, t2]]
+                    yield {"kind": "share", "dir": "from", "cols": SHARE_COLS, "tables": SHARE_TABLES, "steps": steps}
+
+
+def share_corpus():
+    # the session of seeded change C11-w6s2
+    yield {"kind": "share", "dir": "from", "cols": SHARE_COLS, "tables": SHARE_TABLES[:2],
+           "steps": [["conv", "DataFrame", 0], ["edit", 0, "rename", 0, "identifier"], ["edit", 0, "nullable", 1, False],
+                     ["conv", "DataFrame", 1]]}
+    # a longer session: every entry point in turn, every result edited, the first table converted again at the end
+    yield {"kind": "share", "dir": "from", "cols": SHARE_COLS, "tables": SHARE_TABLES[:4],
+           "steps": [["conv", "helper", 0], ["edit", 0, "pop", 0, None], ["conv", "from_arrow", 1], ["edit", 1, "rename", 1, "x"],
+                     ["conv", "fields", 2], ["edit", 2, "nullable", 0, True], ["conv", "DataFrame", 3], ["edit", 3, "append", 0, "z"],
+                     ["edit", 0, "append", 0, "again"], ["conv", "DataFrame", 0], ["conv", "helper", 2], ["conv", "fields", 1]]}
+    # the result edited is the *later* one; the earlier result must not move
+    yield {"kind": "share", "dir": "from", "cols": SHARE_COLS, "tables": SHARE_TABLES[:2],
+           "steps": [["conv", "from_arrow", 0], ["conv", "DataFrame", 1], ["edit", 1, "rename", 0, "identifier"],
+                     ["edit", 1, "pop", 1, None]]}
+    # decimal columns of two widths under the same names
+    dec = [{"name": "id", "type": "int64", "nullable": False}, {"name": "v", "type": "decimal128(10,2)"}]
+    dec0 = [{"name": "id", "type": "int64", "nullable": False}, {"name": "v", "type": "decimal128(10,0)"}]
+    yield {"kind": "share", "dir": "from", "cols": dec,
+           "tables": [{"rows": [[1, "1.50"]]}, {"rows": [[2, "7"]], "cols": dec0}, {"rows": [[3, None]], "own": True}],
+           "steps": [["conv", "DataFrame", 0], ["edit", 0, "type", 1, "VARCHAR"], ["conv", "from_arrow", 1], ["conv", "helper", 2],
+                     ["edit", 1, "rename", 1, "w"], ["conv", "DataFrame", 2], ["conv", "fields", 1]]}
+
+
+SHARE_TO_SCHEMA = [_scol("id", "INTEGER", nullable=False), _scol("name", "VARCHAR"), _scol("d", "DECIMAL", p=10, s=2),
+                   _scol("l", "ARRAY", elem="INTEGER")]
+SHARE_TO_EDIT_ALPHABET = [["rename", 0, "identifier"], ["nullable", 1, False], ["type", 1, "INTEGER"], ["precision", 2, 12],
+                          ["scale", 2, 0], ["elem", 3, "VARCHAR"], ["pop", 1, None], ["append", 0, "extra"]]
+
+
+def exhaustive_share_to_cases():
+    """the other direction: an Orso schema object converted to Arrow, edited, converted again (the same object, or an
+    equal one that was not edited) - each conversion must describe the columns as they are when it is made"""
+    for via1 in SHARE_TO_VIAS:
+        for e in SHARE_TO_EDIT_ALPHABET:
+            for via2 in SHARE_TO_VIAS:
+                for k2 in (0, 1):
+                    yield {"kind": "share", "dir": "to", "schemas": [SHARE_TO_SCHEMA, SHARE_TO_SCHEMA],
+                           "steps": [["conv", via1, 0], ["edit", 0] + e, ["conv", via2, k2]]}
+
+
+def random_share_case(ctx):
+    rng = ctx.rng
+    if rng.random() < 0.3:
+        return random_share_to_case(ctx)
+    ncols = rng.choice([1, 2, 2, 3])
+    names = rng.sample(["id", "name", "é", "x y", "", "v", "n"], ncols)
+    cols = [{"name": nm, "type": rng.choice(SHARE_COLTYPES), "nullable": rng.random() < 0.7} for nm in names]
+
+    def rows_for(cs):
+        n = rng.choice([0, 1, 2, 3])
+        return [[gen_cell(rng, c["type"], 0.0 if (c["type"] == "int64" or not c.get("nullable", True)) else 0.3) for c in cs]
+                for _ in range(n)]
+    tables = []
+    for t in range(rng.choice([1, 2, 2, 3])):
+        spec = {}
+        cs = cols
+        if t and rng.random() < 0.25:   # the same names under another typing / nullability
+            cs = [{"name": c["name"], "type": rng.choice(SHARE_COLTYPES), "nullable": rng.random() < 0.7} for c in cols]
+            spec["cols"] = cs
+        elif t and rng.random() < 0.4:
+            spec["own"] = True
+        spec["rows"] = rows_for(cs)
+        tables.append(spec)
+    steps, widths = [], []
+    for _ in range(rng.choice([2, 3, 3, 4, 5])):
+        steps.append(["conv", rng.choice(SHARE_VIAS), rng.randrange(len(tables))])
+        widths.append(ncols)
+        for _ in range(rng.choice([0, 1, 1, 2])):
+            r = rng.randrange(len(widths))
+            what = rng.choice(SHARE_EDITS)
+            if what == "append":
+                steps.append(["edit", r, "append", 0, rng.choice(["extra", "id", "z"])])
+                widths[r] += 1
+                continue
+            if widths[r] == 0:
+                continue
+            j = rng.randrange(widths[r])
+            if what == "pop":
+                steps.append(["edit", r, "pop", j, None])
+                widths[r] -= 1
+            else:
+                value = {"rename": rng.choice(["identifier", "id", "", "é"]), "nullable": rng.random() < 0.5,
+                         "type": rng.choice(SHARE_EDIT_TYPES)}[what]
+                steps.append(["edit", r, what, j, value])
+    if steps[-1][0] != "conv" or rng.random() < 0.5:
+        steps.append(["conv", rng.choice(SHARE_VIAS), rng.randrange(len(tables))])
+    return {"kind": "share", "dir": "from", "cols": cols, "tables": tables, "steps": steps[:16]}
+
+
+def random_share_to_case(ctx):
+    rng = ctx.rng
+
+    def col(j):
+        t = rng.choice(SHARE_TO_TYPES + ("DECIMAL", "ARRAY"))
+        c = _scol(rng.choice(["a", "b", "é", "x y"]) + str(j), t, nullable=rng.random() < 0.7)
+        if t == "DECIMAL":
+            c["p"] = rng.choice([1, 10, 28, 38])
+            c["s"] = rng.choice([0, c["p"], rng.randint(0, c["p"])])
+        elif t == "ARRAY":
+            c["elem"] = rng.choice(SHARE_TO_ELEMS)
+        return c
+    cols = [col(j) for j in range(rng.choice([1, 2, 3, 4]))]
+    schemas = [cols] + ([cols] if rng.random() < 0.5 else [])
+    state = [[dict(c) for c in cs] for cs in schemas]
+    steps = []
+    for _ in range(rng.choice([2, 3, 4, 5])):
+        steps.append(["conv", rng.choice(SHARE_TO_VIAS), rng.randrange(len(schemas))])
+        for _ in range(rng.choice([0, 1, 1, 2])):
+            k = rng.randrange(len(schemas))
+            j = rng.randrange(len(state[k]))
+            c = state[k][j]
+            what = rng.choice(SHARE_TO_EDITS)
+            value = {"rename": "r%d" % len(steps), "nullable": rng.random() < 0.5, "type": rng.choice(SHARE_TO_TYPES),
+                     "precision": rng.choice([1, 12, 38]), "scale": rng.choice([0, 1, c.get("p") or 0]),
+                     "elem": rng.choice(SHARE_TO_ELEMS), "pop": None, "append": "n%d" % len(steps)}[what]
+            new = _share_to_edit(state[k], what, j, value)
+            if new:
+                state[k] = new
+                steps.append(["edit", k, what, j, value])
+    steps.append(["conv", rng.choice(SHARE_TO_VIAS), rng.randrange(len(schemas))])
+    return {"kind": "share", "dir": "to", "schemas": schemas, "steps": steps[:16]}
+
+
 def big_cases(ctx):
     rng = ctx.rng
     out = [
@@ -2815,6 +3615,9 @@ def run(ctx):
     n_reuse = _batched(ctx, exhaustive_reuse_cases())
     mark("reuse-exhaustive")
     nmax, kmax = ctx.scale((6, 4), (6, 4))
+    _batched(ctx, share_corpus())
+    n_share = _batched(ctx, exhaustive_share_cases()) + _batched(ctx, exhaustive_share_to_cases())
+    mark("share-exhaustive")
     n_split = _batched(ctx, exhaustive_split_cases(nmax, kmax))
     mark("split-exhaustive")
     n_itb = _batched(ctx, exhaustive_iterator_cases(*ctx.scale((4, 3), (5, 4))))
@@ -2830,8 +3633,10 @@ def run(ctx):
              "split of 0..4(5) rows into 1..3(4) tables (%d cases); every pair of calls from a 10-call alphabet on one frame "
              "x 4 kinds of frame, each followed by an unlimited conversion (%d cases); every pair of conversions from a "
              "7-conversion alphabet on ONE list / tuple / single table, sequential and interleaved, followed by an unlimited "
-             "conversion, the argument compared afterwards (%d cases); then random"
-             % (nmax, kmax, n_split, n_type, n_field, n_itb, n_seq, n_reuse))
+             "conversion, the argument compared afterwards (%d cases); convert / edit the result / convert again through "
+             "every pair of entry points x 8 edits x 8 pairs of tables (same table, same Schema object, equal Schema, other typing, "
+             "without rows), and the same towards Arrow (%d cases); then random"
+             % (nmax, kmax, n_split, n_type, n_field, n_itb, n_seq, n_reuse, n_share))
     _batched(ctx, big_cases(ctx), n=2)
     mark("big")
     n_iter, n_rt = ctx.scale((1500, 700), (30000, 12000))
@@ -2857,6 +3662,13 @@ def run(ctx):
         evaluate(ctx, [random_reuse_case(ctx) for _ in range(k)])
         done += k
     mark("random-reuse")
+    n_share_r = ctx.scale(300, 6000)
+    done = 0
+    while done < n_share_r and ctx.time_left() > max(4, 0.04 * rem):
+        k = min(150, n_share_r - done)
+        evaluate(ctx, [random_share_case(ctx) for _ in range(k)])
+        done += k
+    mark("random-share")
     done = 0
     while done < n_rt and ctx.time_left() > 3:
         k = min(300, n_rt - done)
@@ -2876,6 +3688,7 @@ def intensify(ctx):
         evaluate(ctx, [random_roundtrip_case(ctx, quiet_known=True) for _ in range(200)])
         evaluate(ctx, [random_seq_case(ctx) for _ in range(150)])
         evaluate(ctx, [random_reuse_case(ctx) for _ in range(100)])
+        evaluate(ctx, [random_share_case(ctx) for _ in range(100)])
     _batched(ctx, exhaustive_type_cases(True))
     _batched(ctx, exhaustive_field_cases())
     _batched(ctx, schema_cases())
